@@ -259,7 +259,6 @@ func VP_C20_unsupported_blockmap_dir() {
 	}
 	raw[0x22] &^= 0x08 // EXT4_EXTENTS_FL clear; EXT4_INLINE_DATA_FL (0x10000000) arbitrary
 	c20SealInode(raw, sb.checksumSeed, c20Ino)
-	vp.KnownPanic("KF-C20-5", "FileSystem).readDirectory)") // nil extent tree: in.extents.blocks(fs)
 	vp.NoPanic()
 	res, err := fs.readDirectory(c20Ino)
 	vp.AllowPanic()
